@@ -17,7 +17,7 @@ CONSTANTS Rids,        \* request identifiers
           Outcomes,    \* subset of AllOutcomes
           Options      \* subset of {"unset","Continue","Stop","Undo"}
 
-AllOutcomes == {"success", "successSetsId", "typedError", "plainError", "panic", "unrouted", "critical"}
+AllOutcomes == {"success", "successSetsId", "successClearsId", "typedError", "plainError", "panic", "unrouted", "critical"}
 
 VARIABLES st,       \* st[r] \in {"idle","validate","items","done"}
           req,      \* req[r]   the request message descriptor
@@ -104,7 +104,8 @@ Exec(r) ==
                                                      status |-> IF Failed(o) THEN "Failed" ELSE "Success",
                                                      reason |-> Reason(o)])]
           /\ ph' = [ph EXCEPT ![r] = IF Failed(o) THEN <<>>           \* handleBatchItemError clears it
-                                     ELSE IF o = "successSetsId" THEN <<uid[r], i>> ELSE @]
+                                     ELSE IF o = "successSetsId" THEN <<uid[r], i>>
+                                     ELSE IF o = "successClearsId" THEN <<>> ELSE @]      \* a handler may store the empty placeholder
           /\ stopped' = [stopped EXCEPT ![r] = Failed(o) /\ StopOnError(req[r])]
           /\ idx' = [idx EXCEPT ![r] = i + 1]
     /\ UNCHANGED <<st, req, hdr, uid>>
@@ -161,10 +162,10 @@ RejectWholeFor(r) ==
 (* by the items before i OF THE SAME REQUEST only.                          *)
 ExpectedPh(r, i) ==
     LET its == req[r].items
-        Prior == {j \in 1..(i-1) : Failed(its[j].out) \/ its[j].out = "successSetsId"}
+        Prior == {j \in 1..(i-1) : Failed(its[j].out) \/ its[j].out \in {"successSetsId", "successClearsId"}}
     IN IF Prior = {} THEN <<>>
        ELSE LET j == CHOOSE m \in Prior : \A n \in Prior : n <= m
-            IN IF Failed(its[j].out) THEN <<>> ELSE <<uid[r], j>>
+            IN IF its[j].out = "successSetsId" THEN <<uid[r], j>> ELSE <<>>
 
 EmptyAtStartFor(r) == st[r] = "validate" => ph[r] = <<>>
 
